@@ -67,7 +67,7 @@ def build(tier, seed):
                 'stated length with each sample held for k steps, float64; non-trivial = non-constant word' % ROOT,
         'bounds': bounds,
         'required_classes': ['flat-start', 'flat-end', 'interior-plateau-extremum', 'interior-plateau-nonextremum',
-                             'starts-rising', 'starts-falling', 'ptype-max', 'ptype-min', 'ncyc-switched', 'stretched-long-record'],
+                             'starts-rising', 'starts-falling', 'ptype-max', 'ptype-min', 'ncyc-switched', 'stretched-long-record', 'huge-first-sample'],
         'assumptions': ['index-valued outputs are compared exactly', 'reference: run-compression scanner (mcheck/refs/peaks_ref.py)',
                         'constant series are outside the statement and skipped (counted as disabled)'],
     }
@@ -143,8 +143,19 @@ def check_word(r, w, fam, containers=('f', 'i', 'l'), label=None):
                 ok, got = r.call('all', sub, reused)
                 if ok:
                     r.expect_ints('all.object-after-reset_values', sub, got, ref.turning_points(wn)[0])
-    # cycle counter (also at 1e-9 of the amplitude for the short words)
-    for scale_tag, arr in ((('', np.array(w, dtype=float)),) + (((' x1e-9', np.array(w, dtype=float) * 1e-9),) if n <= 5 else ())):
+    # a first sample that is 1e17 times larger than everything that follows (a record released from a large initial value):
+    # the later steps are still steps; reference evaluated on the very same floats
+    if n <= 6 and n >= 3:
+        xs = [1.0] + [float(v) * 1e-17 for v in w[1:]]
+        if len(set(xs)) > 1:
+            sub = dict(sub0, input='first sample 1, then x1e-17')
+            ok, got = r.call('all', sub, pc.get_peak_array_indices, np.array(xs))
+            if ok:
+                r.cls('huge-first-sample')
+                r.expect_ints('all.equals-turning-points', sub, got, ref.turning_points(xs)[0])
+    # cycle counter (also at 1e-9 of the amplitude for the short words, and on integer-typed containers)
+    for scale_tag, arr in ((('', np.array(w, dtype=float)),) + (((' x1e-9', np.array(w, dtype=float) * 1e-9), (' int64', np.array(w, dtype=np.int64)),
+                                                                  (' list-of-int', [int(v) for v in w]), (' int8', np.array(w, dtype=np.int8))) if n <= 5 else ())):
       for opt in ('all', 'switched'):
           if opt == 'all':
               P = list(idx)
